@@ -299,7 +299,7 @@ def run(repo, rep, tier):
         for f in reach:
             if f._module.name in ('dheat',):
                 continue
-            d = Derived(f, is_src, extra_seeds=seeds[f])
+            d = Derived(f, is_src, extra_seeds=seeds[f], elements=False)
             for (g, site, kind) in cg.edges.get(f, []):
                 if not isinstance(site, ast.Call) or kind not in ('exact', 'dispatch') or g not in seeds:
                     continue
@@ -315,7 +315,7 @@ def run(repo, rep, tier):
         if f._module.name in ('dheat',):
             continue
         nscan += 1
-        d = Derived(f, is_src, extra_seeds=seeds[f])
+        d = Derived(f, is_src, extra_seeds=seeds[f], elements=False)
         for node, desc in d.mutations():
             rep.check('order', 'no in-place edit of a parsed name-list: %s' % func_id(f), False, node, 'parsed name-list edited in place (%s) in %s: advertised names can be dropped, reordered, duplicated or invented in every later rendering' % (desc, func_id(f)))
         # transformations applied to a parsed list on its way to a renderer
